@@ -25,7 +25,16 @@
 (*   seq          two valid items                                          *)
 (*   func, map, array   a function item, map{}, []                         *)
 (*   bigneg       -1000000000000                                           *)
+(*   hugeint      an xs:integer literal of 400 digits (beyond xs:double)   *)
 (*   baduri, nul  the strings 'http://[' and U+0000                        *)
+(*                                                                         *)
+(* A signature of CollationPositions has a $collation parameter; SetColl    *)
+(* gives it a collation class, and Again makes THE SAME CALL A SECOND TIME  *)
+(* in the same process (calls = 2): a locale collation goes through a       *)
+(* process-wide lock and LC_COLLATE, so "no call hangs" must also hold for  *)
+(* the call after it.  The harness also makes the call without the          *)
+(* argument on a parser whose default_collation is that collation, and      *)
+(* reports a collation lock left held after a legal return.                 *)
 (*                                                                         *)
 (* What the specification says about every such call is Outcome.tla: the   *)
 (* parse returns a tree or raises a CODED ElementPathError, the evaluation *)
@@ -45,7 +54,7 @@ VARIABLES sig, args,
 vars == <<sig, args, calls>>
 
 AllClasses == {"valid", "attr", "elem", "untyped_bad", "untyped_ok", "empty", "wrong_str", "wrong_num",
-               "wrong_dur", "wrong_numstr", "seq", "func", "map", "array", "bigneg", "baduri", "nul"}
+               "wrong_dur", "wrong_numstr", "seq", "func", "map", "array", "bigneg", "hugeint", "baduri", "nul"}
 
 (* Collation arguments.  A $collation parameter selects process-global state (LC_COLLATE under a  *)
 (* process-wide lock), so a call with a collation class is made TWICE: "no call hangs" includes  *)
